@@ -19,13 +19,13 @@ def cases(tier, inst):
     if tier == "quick":
         for ms in P.stream_multisets(inst, 3, 2):
             for li, labels in enumerate(P.label_schemes(len(ms), 2)):
-                for ui in (0, 1, 2, 3, 8, 9):
-                    if li > 0 and ui in (2, 8, 9):
-                        continue        # the glide pair and the near-the-end levels only with the single-zone labelling
+                for ui in (0, 1, 2, 3, 8, 9, 11):
+                    if li > 0 and ui not in (0, 11):
+                        continue        # multi-zone labellings: defaults and the two-generation-levels set; the other sets with one zone
                     yield {"streams": ms, "zones": labels, "uset": ui}
         for ms in P.stream_multisets(inst, 3, 3, cps=(1,), dts=(1,), min_n=3):
             for labels in P.label_schemes(3, 3, nested=False):
-                for ui in (0, 3):
+                for ui in (3, 11):
                     yield {"streams": ms, "zones": labels, "uset": ui}
     else:
         for ms in P.stream_multisets(inst, 4, 2):
@@ -34,7 +34,7 @@ def cases(tier, inst):
                     yield {"streams": ms, "zones": labels, "uset": ui}
         for ms in P.stream_multisets(inst, 3, 3, cps=(1, 2), dts=(1,), min_n=3):
             for labels in P.label_schemes(3, 3):
-                for ui in (0, 1, 3, 5, 8, 9, 10):
+                for ui in (0, 1, 3, 5, 8, 9, 10, 11):
                     yield {"streams": ms, "zones": labels, "uset": ui}
 
 
@@ -118,7 +118,7 @@ SUBCHECKS = {
         rule="case = stream multiset x zone labels x utility set; non-trivial = at least two record kinds with a non-zero Qh or Qc; "
              "outcomes = distinct record lists",
         cases=_cases, run=run,
-        bound=lambda t: "multisets of <=2 streams (K=3) x <=2 zones x 4 utility sets + 3-stream sets x <=3 zones" if t == "quick"
-        else "multisets of <=2 streams (K=4) x <=2 zones x 7 utility sets + 3-stream sets (K=3) x <=3 zones x 4 utility sets",
+        bound=lambda t: "multisets of <=2 streams (K=3) x (one zone x 7 utility sets + all <=2-zone labellings x 2 sets) + 3-stream sets x <=3 zones x 2 sets" if t == "quick"
+        else "multisets of <=2 streams (K=4) x <=2 zones x 12 utility sets + 3-stream sets (K=3) x <=3 zones x 8 utility sets",
     ),
 }
